@@ -527,3 +527,28 @@ def check_result_pairing(rc, rule: str, quals=SIMPLIFIERS):
 def _short_v(v, n: int = 140) -> str:
     t = str(v)
     return t if len(t) <= n else t[:n] + "..."
+
+
+def sort_key_field(fi, node, depth: int = 0):
+    """The tuple field a `key=` argument sorts on: `lambda t: t[k]`, `operator.itemgetter(k)`, a local `def f(t): return t[k]`
+    or a name bound once to one of these (hoisted out of the loop).  ("field", k) | None when it is something else."""
+    if isinstance(node, ast.Lambda) and len(node.args.args) == 1 and isinstance(node.body, ast.Subscript) and isinstance(node.body.value, ast.Name) \
+            and node.body.value.id == node.args.args[0].arg and isinstance(node.body.slice, ast.Constant) and isinstance(node.body.slice.value, int):
+        return ("field", node.body.slice.value)
+    if isinstance(node, ast.Call) and not node.keywords and len(node.args) == 1 and isinstance(node.args[0], ast.Constant) and isinstance(node.args[0].value, int) \
+            and ast.unparse(node.func) in ("operator.itemgetter", "itemgetter"):
+        return ("field", node.args[0].value)
+    if isinstance(node, ast.Name) and depth < 3:
+        defs = []
+        for n in ast.walk(fi.module.tree):
+            if isinstance(n, ast.Assign) and len(n.targets) == 1 and isinstance(n.targets[0], ast.Name) and n.targets[0].id == node.id:
+                defs.append(n.value)
+            elif isinstance(n, ast.FunctionDef) and n.name == node.id and len(n.args.args) == 1 and len(n.body) >= 1 and isinstance(n.body[-1], ast.Return) \
+                    and all(isinstance(b_, ast.Expr) and isinstance(b_.value, ast.Constant) for b_ in n.body[:-1]):
+                r = n.body[-1].value
+                if isinstance(r, ast.Subscript) and isinstance(r.value, ast.Name) and r.value.id == n.args.args[0].arg and isinstance(r.slice, ast.Constant):
+                    defs.append(ast.Lambda(args=n.args, body=r))
+        inside = [d for d in defs if any(d is x for x in ast.walk(fi.node))] or defs
+        if len(inside) == 1:
+            return sort_key_field(fi, inside[0], depth + 1)
+    return None
